@@ -6,7 +6,7 @@
     ([q]), what the pipeline handed over ([pl]), the rule's forward_to and
     allow_encoded_slashes ([r]) -> what the upstream receives.  [execute] is
     ruleImpl.Execute + Backend.CreateURL on the request view [u]. *)
-From HV Require Import Base.Prelude Base.GoUrl C15.UrlLemmas C15.Model C15.Spec C15.Proofs.
+From HV Require Import Base.Prelude Base.GoUrl C15.UrlLemmas C15.QueryLemmas C15.Model C15.Spec C15.Proofs C15.MainProof.
 
 Local Open Scope string_scope.
 
@@ -33,6 +33,17 @@ Theorem C15_wire_path_exact : forall fx r u t,
   wire_path t = cfg_add r ++ strip_prefix (cfg_strip r) (u_rawpath u).
 Proof. exact wire_path_exact_bytes. Qed.
 Print Assumptions C15_wire_path_exact.
+
+(** `on`: the encoded slashes are decoded and nothing else changes, provided the
+    path has no spot that net/url would spell differently (C15-F3 otherwise) *)
+Theorem C15_wire_path_on : forall fx r u t,
+  view_wf u -> r_setting r = On -> u_path u <> "*" ->
+  renorm_sensitive (u_rawpath u) = false -> renorm_sensitive (cfg_add r) = false ->
+  valid_encoded (cfg_add r) = true -> wellformed (cfg_add r) = true ->
+  execute fx r u = Some t ->
+  wire_path t = cfg_add r ++ strip_prefix (cfg_strip r) (decode_slashes (u_rawpath u)).
+Proof. exact wire_path_on_bytes. Qed.
+Print Assumptions C15_wire_path_on.
 
 (** no double encoding, for every setting and every configuration whose
     transformed path is well-formed: what the upstream decodes is what the
@@ -81,13 +92,15 @@ Proof. exact serve_headers. Qed.
 Print Assumptions C15_headers_name_by_name.
 
 (** the headers the pipeline produced under a name spelling [k] in any casing
-    replace whatever the client sent under a name spelling [k] in any casing *)
+    replace whatever the client sent under a name spelling [k] in any casing — in
+    the repaired tree ([fx_f4 fx = true]) for every name, before that for every
+    name but the forwarding headers (C15-F4) *)
 Theorem C15_pipeline_header_wins : forall fx q pl r tls m uri host hs body k,
   serve fx q pl r = Forwarded tls m uri host hs body ->
   let vs := pipeline_values (fx_c13f3 fx) (p_headers pl) k in
   first_or_empty vs <> "" ->
   k <> "Host" -> k <> "User-Agent" -> (k = "Cookie" -> p_cookies pl = []) ->
-  forwarding_value q k = None ->
+  fx_f4 fx = true \/ forwarding_value q k = None ->
   h_values k hs = vs.
 Proof. exact pipeline_header_wins. Qed.
 Print Assumptions C15_pipeline_header_wins.
@@ -129,49 +142,85 @@ Theorem C15_method_body_untouched : forall fx q pl r tls m uri host hs body,
 Proof. exact method_body_untouched. Qed.
 Print Assumptions C15_method_body_untouched.
 
-(** the recorded findings, each with its witness *)
-Theorem C15_F1_refuted : exists q pl r,
-  guard_F1 q r = true /\ spec_ok q pl r (serve current q pl r) = false /\
-  forwarded_uri (serve current q pl r) = "/x?a=1&b=%zz".
-Proof. exact F1_refuted. Qed.
-Print Assumptions C15_F1_refuted.
+(** removed query parameters: for EVERY query and every key, a removed key is
+    gone and every other key keeps its values in order (repaired tree) *)
+Theorem C15_query_only_removed : forall names q k,
+  names <> [] -> q <> EmptyString ->
+  values_get k (fst (parse_query (remove_from_fx true names q))) =
+  if mem_name k names then [] else values_get k (fst (parse_query q)).
+Proof. exact remove_from_spec. Qed.
+Print Assumptions C15_query_only_removed.
 
+(** before 41fd1db the same held only for queries that parse (C15-F1) *)
+Theorem C15_query_only_removed_pinned : forall names q k,
+  names <> [] -> q <> EmptyString -> snd (parse_query q) = false ->
+  values_get k (fst (parse_query (remove_from_fx false names q))) =
+  if mem_name k names then [] else values_get k (fst (parse_query q)).
+Proof. exact remove_from_spec_pinned. Qed.
+Print Assumptions C15_query_only_removed_pinned.
+
+(** field names in any casing: spellings that differ only in ASCII case name the same header *)
+Theorem C15_header_names_any_casing : forall n n',
+  all_chars is_tchar n = true -> fold_eq n n' = true -> canon_key n = canon_key n'.
+Proof. exact canon_key_any_casing. Qed.
+Print Assumptions C15_header_names_any_casing.
+
+(** THE WHOLE STATEMENT: for every request (any bytes), every pipeline output and
+    every rule / rewrite configuration on which none of the open findings
+    C15-F2, -F3, -F5 shows, what is forwarded (or that nothing is) satisfies every
+    sentence of the property ([spec_ok], C15/Spec.v) *)
+Theorem C15_spec_holds : forall q pl r,
+  oracle_ok q = true ->
+  guard_F2 q = false -> guard_F3 q r = false -> guard_F5 r = false ->
+  spec_ok q pl r (serve repaired q pl r) = true.
+Proof. exact spec_holds. Qed.
+Print Assumptions C15_spec_holds.
+
+(** the repaired findings (pinned behaviour and the same input after the repair) *)
+Theorem C15_F1_pinned_refuted : exists q pl r,
+  guard_F1 q r = true /\ spec_ok q pl r (serve current q pl r) = false /\
+  forwarded_uri (serve current q pl r) = "/x?a=1&b=%zz" /\
+  spec_ok q pl r (serve repaired q pl r) = true /\ forwarded_uri (serve repaired q pl r) = "/x?b=%zz".
+Proof. exact F1_pinned_refuted. Qed.
+Print Assumptions C15_F1_pinned_refuted.
+
+Theorem C15_F4_pinned_refuted : exists q pl r,
+  guard_F4 q pl = true /\ spec_ok q pl r (serve current q pl r) = false /\
+  forwarded_field "Forwarded" (serve current q pl r) = ["for=127.0.0.2;host=h.example.com;proto=http"] /\
+  spec_ok q pl r (serve repaired q pl r) = true /\ forwarded_field "Forwarded" (serve repaired q pl r) = ["v1"].
+Proof. exact F4_pinned_refuted. Qed.
+Print Assumptions C15_F4_pinned_refuted.
+
+(** the open findings, each with its witness *)
 Theorem C15_F2_refuted : exists q pl r,
-  guard_F2 q = true /\ spec_ok q pl r (serve current q pl r) = false /\
-  q_method q = "PROPFIND" /\ forwarded_method (serve current q pl r) = "GET".
+  guard_F2 q = true /\ spec_ok q pl r (serve repaired q pl r) = false /\
+  q_method q = "PROPFIND" /\ forwarded_method (serve repaired q pl r) = "GET".
 Proof. exact F2_refuted. Qed.
 Print Assumptions C15_F2_refuted.
 
 Theorem C15_F3_refuted : exists q pl r,
-  guard_F3 q r = true /\ spec_ok q pl r (serve current q pl r) = false /\
-  forwarded_uri (serve current q pl r) = "/0%20/;users".
+  guard_F3 q r = true /\ spec_ok q pl r (serve repaired q pl r) = false /\
+  forwarded_uri (serve repaired q pl r) = "/0%20/;users".
 Proof. exact F3_refuted. Qed.
 Print Assumptions C15_F3_refuted.
 
-Theorem C15_F4_refuted : exists q pl r,
-  guard_F4 q pl = true /\ spec_ok q pl r (serve current q pl r) = false /\
-  forwarded_field "Forwarded" (serve current q pl r) = ["for=127.0.0.2;host=h.example.com;proto=http"].
-Proof. exact F4_refuted. Qed.
-Print Assumptions C15_F4_refuted.
-
 Theorem C15_F5_refuted :
-  (exists q pl r, guard_F5 r = true /\ spec_ok q pl r (serve current q pl r) = false /\
-                  forwarded_uri (serve current q pl r) = "/a%20b/x;y") /\
-  (exists q pl r, guard_F5 r = true /\ spec_ok q pl r (serve current q pl r) = false /\
-                  forwarded_uri (serve current q pl r) = "/").
+  (exists q pl r, guard_F5 r = true /\ spec_ok q pl r (serve repaired q pl r) = false /\
+                  forwarded_uri (serve repaired q pl r) = "/a%20b/x;y") /\
+  (exists q pl r, guard_F5 r = true /\ spec_ok q pl r (serve repaired q pl r) = false /\
+                  forwarded_uri (serve repaired q pl r) = "/").
 Proof. exact F5_refuted. Qed.
 Print Assumptions C15_F5_refuted.
 
 (** the hypotheses are satisfiable by a request that exercises every sentence *)
 Theorem C15_nonvacuous :
   oracle_ok nv_req = true /\
-  guard_F1 nv_req nv_rule = false /\ guard_F2 nv_req = false /\ guard_F3 nv_req nv_rule = false /\
-  guard_F4 nv_req nv_pl = false /\ guard_F5 nv_rule = false /\
-  serve current nv_req nv_pl nv_rule =
+  guard_F2 nv_req = false /\ guard_F3 nv_req nv_rule = false /\ guard_F5 nv_rule = false /\
+  serve repaired nv_req nv_pl nv_rule =
     Forwarded false "POST" "/up/v1%2Fx/%3Bq%41?b=%2F&c=" "up:8080"
       [("Accept", ["*/*"]); ("Accept-Encoding", ["gzip"]); ("Authorization", ["Bearer t"]);
        ("Cookie", ["c=1; sid=1"]); ("Forwarded", ["for=127.0.0.9;host=h.example.com;proto=http"]);
        ("X-User", ["alice"; "second"])] "{""a"":1}" /\
-  spec_ok nv_req nv_pl nv_rule (serve current nv_req nv_pl nv_rule) = true.
+  spec_ok nv_req nv_pl nv_rule (serve repaired nv_req nv_pl nv_rule) = true.
 Proof. exact nonvacuous. Qed.
 Print Assumptions C15_nonvacuous.
